@@ -111,4 +111,53 @@ theorem layers_loop (n : Int) (h : Nat) (rem : Nat) (log : List (Int × Int)) (l
     rw [hstep, hnext, ih _ _ _ (by omega)]
     simp [pyramidLayers, intPairs]
 
+/-! ### bipartite_shift -/
+
+theorem insertSorted_eq (l : List Int) (v : Int) : Py.insertSorted v l = insertInt l v := by
+  induction l with
+  | nil => rfl
+  | cons x xs ih =>
+    simp only [Py.insertSorted, insertInt, ih]
+    by_cases h : v < x
+    · have : ¬ x ≤ v := by omega
+      simp [h, this]
+    · have : x ≤ v := by omega
+      simp [h, this]
+
+theorem sorted_eq (l : List Int) : Py.sorted l = sortInt l := by
+  unfold Py.sorted sortInt
+  congr 1
+  funext acc x
+  exact insertSorted_eq acc x
+
+/-- `a % M` for a positive `M`: Python's `%` is the mathematical one -/
+theorem mod_pos (a : Int) (M : Nat) (hM : 0 < M) : Py.mod a (M : Int) = Except.ok (a % (M : Int)) := by
+  have hne : ¬ ((M : Int) = 0) := by omega
+  simp only [Py.mod, hne, if_false]
+  rw [Int.fmod_eq_emod_of_nonneg _ (by omega)]
+
+/-- the inner loop: one `add_edge(u, 1 + (u - 1 + offset) % M)` per offset -/
+theorem shift_inner (M : Nat) (hM : 0 < M) (u : Int) (c : Int × Int) (log : List (Int × Int)) (pat : List Int) :
+    List.foldlM (fun (G : (Int × Int) × List (Int × Int)) (offset : Int) =>
+        (Py.mod (u - 1 + offset) (M : Int)) >>= fun r3 => Except.ok (G.1, G.2 ++ [(u, 1 + r3)])) (c, log) pat =
+      Except.ok (c, log ++ pat.map (fun o => (u, 1 + (u - 1 + o) % (M : Int)))) := by
+  induction pat generalizing log with
+  | nil => simp
+  | cons o os ih =>
+    rw [List.foldlM_cons, mod_pos _ M hM, Py.ok_bind, Py.ok_bind, ih]
+    simp
+
+theorem shift_outer (M : Nat) (hM : 0 < M) (c : Int × Int) (log : List (Int × Int)) (pat : List Int) (us : List Nat) :
+    List.foldlM (fun (G : (Int × Int) × List (Int × Int)) (u : Int) =>
+        (List.foldlM (fun (G : (Int × Int) × List (Int × Int)) (offset : Int) =>
+          (Py.mod (u - 1 + offset) (M : Int)) >>= fun r3 => Except.ok (G.1, G.2 ++ [(u, 1 + r3)])) G pat) >>=
+          fun G => Except.ok G) (c, log) (ints us) =
+      Except.ok (c, log ++ us.flatMap (fun (u : Nat) => pat.map (fun (o : Int) => ((u : Int), 1 + ((u : Int) - 1 + o) % (M : Int))))) := by
+  induction us generalizing log with
+  | nil => simp [ints]
+  | cons u us ih =>
+    simp only [ints, List.map_cons, List.foldlM_cons, Int.ofNat_eq_natCast] at ih ⊢
+    rw [shift_inner M hM, Py.ok_bind, Py.ok_bind, ih]
+    simp
+
 end Cnfgen.GenDag
